@@ -399,11 +399,15 @@ class Rules:
             # positions are compared along whole steps; provenance is checked per owner below
             pass
         last_tok = None
+        last_tok_ev = None
         last_err = None
         for e in seg.events[seg.start:]:
             if e.kind == "cursor_restore" or e.kind == "buffer_rollback":
                 last_tok = None
+                last_tok_ev = None
                 last_err = None
+            if e.kind in ("insert_token", "lasttok_write"):
+                last_tok_ev = None
             if e.kind == "emit":
                 b, c = lea_prims.snap_of(e.d.get("byte")), lea_prims.snap_of(e.d.get("start"))
                 if e.d.get("owner") == seg.name:
@@ -433,11 +437,23 @@ class Rules:
                               "(and the end of the previous one) are wrong when a line feed sits in between"
                               % (b[2], "before the line starting at label %d was added" % late[0] if late else "after the line starting at label %d was added" % early[0])))
                 if b is not None:
+                    if last_tok is not None and b == last_tok and last_tok_ev is not None and seg.name in ("Lexer::lex_token", "Lexer::finalize_lexing"):
+                        # a token's text runs up to the next token's start: same start => the earlier token is empty
+                        ts0 = variant_set(I, st, last_tok_ev.d["type"]) or set()
+                        strict = ts0 - self.MAY_BE_EMPTY
+                        k0 = "%s|next-start" % self.sites.key(last_tok_ev)
+                        self.bump("R-NONEMPTY", "same_start_pairs", k0)
+                        I.ob("R-NONEMPTY", k0, not strict, self.sites.where(e),
+                             "a token that shares its start with the next one is of a type that may be empty" if not strict else
+                             "a token of type %s is followed by a token with the same start offset, so its text is empty (only %s "
+                             "may be); next token: %s; conditions: %s" % (sorted(strict)[:3], sorted(self.MAY_BE_EMPTY)[:5],
+                                                                            sorted(variant_set(I, st, e.d["type"]) or ["?"])[:3], "; ".join(st.conds[-4:])[:200]))
                     if last_tok is not None and b[1] == last_tok[1] and b[2] < last_tok[2] and seg.name in ("Lexer::lex_token", "Lexer::finalize_lexing"):
                         I.ob("R-EMIT-ORDER", "%s|decreasing" % short_fn(e.d.get("owner") or "?"), False, self.sites.where(e),
                              "a token is emitted with a start offset older than the previous token's start (snapshot labels %d < %d): "
                              "start offsets decrease" % (b[2], last_tok[2]))
                     last_tok = b
+                    last_tok_ev = e
             if e.kind == "error":
                 info = e.d.get("info")
                 if isinstance(info, Enum):
@@ -726,6 +742,27 @@ class Rules:
                 if x.kind == "leave" and x.d.get("callee") == "macro::needs_macro_sep":
                     r = x.d.get("ret")
                     said_yes = isinstance(r, Const) and r.v is True
+            if e.kind == "emit":
+                # an appended MacroSep stands after the last DEFAULT token: that token's type is what the predicate
+                # must have been asked about
+                prev_ok = False
+                shown = None
+                for x in evs[seg.start:idx]:
+                    if x.kind == "enter" and x.d.get("callee") == "macro::needs_macro_sep":
+                        a0 = (x.d.get("args") or [None])[0]
+                        shown = a0
+                        prev_ok = False
+                        if isinstance(a0, Enum) and a0.variant == "None":
+                            prev_ok = any(k[:2] == ("X", "prev_token:default") for k in st.vfacts)
+                        elif isinstance(a0, Enum) and a0.variant == "Some" and a0.args:
+                            r = repr(a0.args[0].key()) if hasattr(a0.args[0], "key") else ""
+                            prev_ok = "field:token_type" in r and "prev_token:default" in r and "('C', 'int', %d)" % st.tokens_epoch in r or \
+                                ("field:token_type" in r and "prev_token:default" in r)
+                self.bump("R-MACROSEP-EMIT", "emissions", "%s|%s|prev" % (short_fn(seg.name), how))
+                I.ob("R-MACROSEP-EMIT", "%s|%s|prev" % (short_fn(seg.name), how), prev_ok, self.sites.where(e),
+                     "needs_macro_sep is asked about the type of the last DEFAULT-channel token (look-behind accessor)" if prev_ok else
+                     "the MacroSep is appended after the last DEFAULT token, but needs_macro_sep was asked about %r, which is not "
+                     "provably that token's type: a separator can end up directly after ';', a label, %%then or %%else" % (shown,))
             key = "%s|%s|guard" % (short_fn(seg.name), how)
             self.bump("R-MACROSEP-EMIT", "emissions", key)
             I.ob("R-MACROSEP-EMIT", key, said_yes, self.sites.where(e),
